@@ -309,7 +309,9 @@ pub async fn run_one(cfg: &MigCfg) -> Vec<Value> {
                 let (k, _, _, _) = keys[crng.gen_range(0..keys.len())].clone();
                 let start = crng.gen_range(0..proxies.len());
                 let uniq = format!("c{}x{}", c, j);
-                let (name, cmd): (&str, Vec<Vec<u8>>) = match crng.gen_range(0..if ttl_ops { 9 } else { 7 }) {
+                let (name, cmd): (&str, Vec<Vec<u8>>) = match crng.gen_range(0..if ttl_ops { 10 } else { 8 }) {
+                    7 if !ttl_ops => ("GETDEL", vec![b"GETDEL".to_vec(), k.clone().into_bytes()]),
+                    9 => ("GETDEL", vec![b"GETDEL".to_vec(), k.clone().into_bytes()]),
                     0 | 1 => ("GET", vec![b"GET".to_vec(), k.clone().into_bytes()]),
                     2 | 3 => ("SET", vec![b"SET".to_vec(), k.clone().into_bytes(), uniq.clone().into_bytes()]),
                     4 => ("DEL", vec![b"DEL".to_vec(), k.clone().into_bytes()]),
